@@ -33,6 +33,8 @@ class DealRecorder:
     def note_rand(self, party, fn, arg, val):
         if self.cur is not None and fn == 'randbelow':
             self.cur['bounds'].append(arg)
+            if '_draws' in self.cur:
+                self.cur['_draws'].append(int(val))
 
     def install(self):
         thresha = sys.modules['mpyc.thresha']
@@ -44,8 +46,15 @@ class DealRecorder:
             ev = {'kind': 'deal', 't': t, 'm': m, 'n': len(s), 'bounds': [], 'order': field.order,
                   'party': rec.w.current, 'caller': sys._getframe(1).f_code.co_name}
             rec.cur = ev
+            small = field.order < 64 and field.ext_deg == 1
+            if small:
+                ev['_draws'] = []
+                ev['_s'] = [int(a.value if hasattr(a, 'value') else a) % field.order for a in s]
             try:
-                return rec.orig(field, s, t, m)
+                r = rec.orig(field, s, t, m)
+                if small:
+                    ev['_shares'] = [[int(v.value if hasattr(v, 'value') else v) % field.order for v in row] for row in r]
+                return r
             finally:
                 rec.cur = outer
                 rec.events.append(ev)
@@ -107,6 +116,8 @@ def run(ctx):
                                 sentpl[src].add(data[i + 12:i + 12 + size])
                                 i += 12 + size
                     for ev in rec.events:
+                        for k_ in ('_draws', '_s', '_shares'):
+                            ev.pop(k_, None)
                         big = ev['order'] > (1 << 40)
                         ev['leak'] = 0
                         if big:
@@ -116,6 +127,59 @@ def run(ctx):
                         ev['src'] = [name, no_prss, ev.pop('caller')]
                         ev.update({'shares': [], 'val': 0})
                         groups.setdefault((m, t), []).append(ev)
+        # ---- fresh polynomials: dealing calls over small prime fields, shares recomputed by TLC from the draws
+        async def small_prog(mpc, seed):
+            await mpc.start()
+            r = random.Random(seed)
+            m_ = len(mpc.parties)
+            for p in (7, 11, 13):
+                if p <= m_:
+                    continue
+                secfld = mpc.SecFld(p)
+                x = mpc.input([secfld(r.randrange(p)) for _ in range(4)], senders=r.randrange(m_))
+                y = mpc.input([secfld(r.randrange(p)) for _ in range(4)])
+                z = mpc.schur_prod(x, y[0])
+                w_ = mpc.matrix_prod([x[:2], x[2:]], [z[:2], z[2:]])
+                bits = mpc.random_bits(secfld, 3)
+                await mpc.output(z + w_[0] + w_[1] + bits)
+            await mpc.shutdown()
+        from .thresha_common import validate_calls, failing_call
+        nfresh = 0
+        for (m, t) in ([(3, 1), (5, 2)] if ctx.quick else [(3, 1), (4, 1), (5, 2), (6, 2), (7, 3)]):
+            for no_prss in (False, True):
+                w = World(m, t, seed=ctx.seed + 5, no_prss=no_prss)
+                rec = DealRecorder(w)
+                w.observers.append(rec)
+                rec.install()
+                try:
+                    w.spawn(small_prog, ctx.seed + 13)
+                    st = w.run(RandomScheduler(ctx.seed + m, 'all'), max_steps=2000000)
+                finally:
+                    rec.remove()
+                    w.close()
+                if st != 'done' or any(w.errors):
+                    ctx.violation('C14:run:small-fields:not-complete', {'m': m, 't': t, 'no_prss': no_prss, 'status': st, 'errors': w.errors})
+                    continue
+                byfield = {}
+                for ev in rec.events:
+                    if '_draws' not in ev or ev['t'] == 0:
+                        continue
+                    tt = ev['t']
+                    blocks = [ev['_draws'][h * tt:(h + 1) * tt] for h in range(ev['n'])]
+                    call = {'kind': 'split', 'm': ev['m'], 's': ev['_s'], 'c': blocks, 'shares': ev.get('_shares', []),
+                            'bounds': [int(b) for b in ev['bounds']], 'pts': [], 'xr': [], 'val': [], 'caller': ev['caller']}
+                    byfield.setdefault(ev['order'], []).append(call)
+                for q, calls in sorted(byfield.items()):
+                    fname = f'GF({q})'
+                    res = validate_calls(ctx, wd, 'MCShamirTrace', calls, fname, m, t, ['SplitOK', 'PatternOK'], f'fresh_{q}_{m}_{t}_{int(no_prss)}')
+                    ctx.traces += len(calls)
+                    nfresh += len(calls)
+                    if not res.ok:
+                        k_, call = failing_call(res, calls)
+                        ctx.violation(f'C14:fresh:{res.violation}:{(call or {}).get("caller", "?")}', {'field': fname, 'm': m, 't': t, 'no_prss': no_prss, 'call': call})
+        ctx.notes['fresh_polynomial_calls_validated'] = nfresh
+        if nfresh == 0:
+            ctx.machinery('vacuous: no small-field dealing call recorded')
         ndeal = 0
         for (m, t), evs in sorted(groups.items()):
             tf = os.path.join(wd, f'deal_{m}_{t}.json')
